@@ -55,6 +55,7 @@ func c16(c *core.Check) {
 	}
 	c.Min("mark-type-edge", 6)
 	c16preProcessMonotone(c)
+	c16baseMarkedBothWays(c)
 	for _, key := range []string{"Service.Extends", "Service.Reference", "Service.Functions", "Function.Arguments", "Function.Throws", "StructLike.Fields", "Type.Reference", "Type.IsTypedef"} {
 		a, ok := hasRead(acc, key)
 		c.Decide(ok, "mark-reads", "trim/"+key, prog.Rel(a.Pos), "read in "+a.Func, key+" is never inspected while marking")
